@@ -167,6 +167,11 @@ def main():
         for i in viol:
             print("  VIOLATED %s\n      at %s: %s" % (i["key"], i["loc"], i["msg"]))
         print("VIOLATION property=%s replay=%s" % (prop, replay_path))
+    else:
+        # a replay file describes the violations of the latest run only: none now, none kept
+        stale = os.path.join(VERIF, "replay", "%s.json" % prop)
+        if os.path.exists(stale):
+            os.remove(stale)
 
     if not args.no_evidence:
         write_evidence(prop, tier, seed, spec, configs, facts, xinfo, R, viol, known_hit, time.time() - t0,
